@@ -25,6 +25,18 @@ RESULT = "std::result::Result"
 CFLOW = "std::ops::ControlFlow"
 
 
+# every body the interpreter entered in this process (reported as analysed in the evidence)
+EVALUATED_BODIES = set()
+
+
+# foreign methods that may be left uninterpreted although they receive a reference to an abstract collection
+READ_ONLY_ON_COLLECTIONS = {"fmt", "clone", "eq", "ne", "hash", "as_ref", "borrow", "deref", "as_slice", "to_vec", "to_owned", "encode", "serialize",
+                            "to_stdvec", "to_allocvec", "from", "into", "as_ptr", "capacity"}
+
+
+READ_ONLY_PREFIXES = ("new", "from_", "as_", "to_", "is_", "contains", "starts_with", "ends_with", "binary_search", "try_from", "try_into")
+
+
 class Unsupported(Exception):
     pass
 
@@ -343,6 +355,7 @@ class Interp:
         body = self.f.bodies.get(path)
         if body is None:
             raise Unsupported("no body for %s" % path)
+        EVALUATED_BODIES.add(path)
         if body.rec.get("closure_kind") == "coroutine" and not self._polling:
             raise Unsupported("coroutine body %s entered other than by polling its future" % path)
         self._polling = False
@@ -836,6 +849,16 @@ class Interp:
                         print("feval: body of %s not evaluable: %s" % (p, ex_), file=sys.stderr)
                     break
         # --- uninterpreted
+        # an unmodelled foreign method handed a reference to an abstract collection could change it (retain, clear, append, ...):
+        # treating it as effect-free would be a silent pass, so it fails closed unless it is known to be read-only
+        for a in args:
+            if a is not None and a[0] == "ref":
+                dv = self.deref_val(a)
+                if dv is not None and dv[0] == "seq" and dv[1] in ("map", "vec", "set") and name not in READ_ONLY_ON_COLLECTIONS and not name.startswith(READ_ONLY_PREFIXES):
+                    if os.environ.get("FEVAL_LOG_UNMODELLED"):
+                        print("feval: unmodelled %s on %s at %s" % (name, dv[1], site), file=sys.stderr)
+                    else:
+                        raise Unsupported("unmodelled method `%s` applied to an abstract %s" % (name, dv[1]))
         self.events.append(("call", name, [self.tokname(a) for a in args], site))
         if name in ("panic", "panic_fmt", "unreachable", "begin_panic", "panic_display", "unwrap_failed", "expect_failed"):
             return DIVERGE
